@@ -1,6 +1,7 @@
 package sim
 
 import (
+	"os"
 	"pgregory.net/rapid"
 )
 
@@ -507,7 +508,7 @@ func GenCase(t *rapid.T, p *Profile) *Case {
 			}
 		}
 	}
-	if hasDrop && hasFlatten {
+	if hasDrop && hasFlatten && os.Getenv("VERIF_ALLOW_FLATTEN_WITH_DROPS") == "" { // (the env knob exists to re-record the probe case of the known finding)
 		for ci, cl := range c.Clients {
 			var keep []Op
 			for _, op := range cl {
